@@ -13,7 +13,7 @@ use crate::json::J;
 use crate::model::*;
 use crate::rng::Rng;
 
-pub const RULE: &str = "case = one score matrix (f32 or u8; 32 or 16 columns) built through the public StripedScores API, possibly in a buffer that previously held more rows of larger values: row counts {0,1,2,3,7,8,9,31,32,33,255,256,257,1000,...,65536 for u8}; value families random / all-negative / all-equal / +-inf / signed zeros / planted strict maximum in every column and first, last, random row / duplicated maxima / all 0 / all 255. Every arm (generic, sse2, avx2, dispatch forced to each arm and unforced, StripedScores::{max,argmax,threshold}, Scores::{max,argmax,threshold}) is compared with a scalar fold over ALL cells: max value, matrix[argmax] == max, threshold(t) == set of cells >= t (each once), empty => None, agreement across arms. Second family: real scorings with a -inf wildcard column: every cell past the last valid position must be -inf and the max must be the best valid score. Non-trivial = matrix with >= 1 row; distinct = distinct (type, C, rows, cell contents).";
+pub const RULE: &str = "case = one score matrix (f32 or u8; 32 or 16 columns) built through the public StripedScores API, possibly in a buffer that previously held more rows of larger values: row counts {0,1,2,3,7,8,9,31,32,33,255,256,257,1000,...,65536 for u8}; value families random / all-negative / all-equal / +-inf / signed zeros / planted strict maximum in every column and first, last, random row / duplicated maxima / all 0 / all 255. Column counts whose rows leave alignment padding (f32 x 1/4/5 columns, u8 x 16) are included for the arms that accept them: padding is not a cell. Every arm (generic, sse2, avx2, dispatch forced to each arm and unforced, StripedScores::{max,argmax,threshold}, Scores::{max,argmax,threshold}) is compared with a scalar fold over ALL cells: max value, matrix[argmax] == max, threshold(t) == set of cells >= t (each once), empty => None, agreement across arms. Second family: real scorings with a -inf wildcard column: every cell past the last valid position must be -inf and the max must be the best valid score. Non-trivial = matrix with >= 1 row; distinct = distinct (type, C, rows, cell contents).";
 
 pub const REQUIRED: &[&str] = &[
     "f32.c32.generic", "f32.c32.sse2", "f32.c32.avx2", "f32.c32.dispatch[generic]", "f32.c32.dispatch[sse2]",
@@ -21,7 +21,7 @@ pub const REQUIRED: &[&str] = &[
     "u8.c32.generic", "u8.c32.sse2", "u8.c32.avx2", "u8.c32.dispatch[generic]", "u8.c32.dispatch[sse2]",
     "u8.c32.dispatch[avx2]", "u8.c32.dispatch[auto]", "u8.c32.StripedScores", "Scores", "family.all_negative",
     "family.planted", "family.duplicated_max", "family.infinities", "family.all_equal", "rows.0", "rows.1", "rows>256",
-    "rows>32768", "reused_larger_buffer", "real.padding_cells_checked", "real.finite_max", "real.threshold_checked", "dispatch_forced.generic",
+    "rows>32768", "reused_larger_buffer", "f32.padded_rows.generic", "u8.padded_rows.generic", "real.padding_cells_checked", "real.finite_max", "real.threshold_checked", "dispatch_forced.generic",
     "dispatch_forced.sse2", "dispatch_forced.avx2",
 ];
 
@@ -417,6 +417,53 @@ fn case_f32_c16(case: u64, rng: &mut Rng, rep: &mut Report, rows: usize, family:
     rep.cover("f32.c16.sse2");
 }
 
+/// column counts whose rows do not fill the 32-byte aligned row (alignment padding after the last
+/// column): only the generic arm accepts them. The padding may hold anything (here: what a larger
+/// matrix of larger values left there) and is not a cell.
+fn case_f32_padded<C: PositiveLength>(case: u64, rng: &mut Rng, rep: &mut Report, rows: usize, family: usize, plant_col: usize) {
+    let (s, fam, planted) = fill_f32::<C>(rng, rep, rows, family, plant_col);
+    rep.eval();
+    if rows > 0 {
+        rep.nontrivial(digest_of(&s));
+    }
+    let cells: Vec<f32> = s.matrix().iter().flat_map(|r| r.iter().cloned()).collect();
+    let ts = thresholds_for(rng, &cells, f32::NEG_INFINITY, 1.0e31);
+    let desc = describe(&s, fam, planted);
+    let mut agreed = None;
+    let g = Pipeline::<Dna, _>::generic();
+    judge(case, rep, &s, &ts, guard(|| via_pipeline("generic", &g, &s, &ts)), "generic", &desc, &mut agreed);
+    rep.cover("f32.padded_rows.generic");
+}
+
+fn case_u8_c16(case: u64, rng: &mut Rng, rep: &mut Report, rows: usize) {
+    let mut s = StripedScores::<u8, U16>::empty();
+    if rng.chance(0.6) {
+        s.resize(rows + rng.range(1, 9), 0);
+        s.matrix_mut().fill(255);
+        rep.cover("reused_larger_buffer");
+    }
+    s.resize(rows, rows * 16);
+    let hi = rng.range(1, 250);
+    for i in 0..rows {
+        for j in 0..16 {
+            s.matrix_mut()[i][j] = rng.below(hi) as u8;
+        }
+    }
+    rep.eval();
+    if rows > 0 {
+        rep.nontrivial(digest_of(&s));
+    }
+    let cells: Vec<u8> = s.matrix().iter().flat_map(|r| r.iter().cloned()).collect();
+    let ts = thresholds_for(rng, &cells, 0u8, 255u8);
+    let desc = describe(&s, "random_below_bound", None);
+    let mut agreed = None;
+    let g = Pipeline::<Dna, _>::generic();
+    judge(case, rep, &s, &ts, guard(|| via_pipeline("generic", &g, &s, &ts)), "generic", &desc, &mut agreed);
+    let p = Pipeline::<Dna, _>::sse2().unwrap();
+    judge(case, rep, &s, &ts, guard(|| via_pipeline("sse2", &p, &s, &ts)), "sse2", &desc, &mut agreed);
+    rep.cover("u8.padded_rows.generic");
+}
+
 // ---- u8 -----------------------------------------------------------------------
 
 fn case_u8(case: u64, rng: &mut Rng, rep: &mut Report, rows: usize, family: usize, plant_col: usize) {
@@ -703,9 +750,15 @@ pub fn run(cfg: &Config) -> Report {
             let rows = if rng.chance(0.1) { rng.range(258, 5000) } else { *rng.pick(&ROWS) };
             let fam = rng.below(7);
             let col = rng.below(32);
-            match rng.below(5) {
+            match rng.below(7) {
                 0 | 1 => case_f32_c32(case, rng, rep, rows, fam, col),
                 2 => case_f32_c16(case, rng, rep, rows.min(1000), fam, col),
+                3 => match rng.below(3) {
+                    0 => case_f32_padded::<lightmotif::num::U1>(case, rng, rep, rows.min(1000), fam, col),
+                    1 => case_f32_padded::<lightmotif::num::U4>(case, rng, rep, rows.min(1000), fam, col),
+                    _ => case_f32_padded::<lightmotif::num::U5>(case, rng, rep, rows.min(1000), fam, col),
+                },
+                4 => case_u8_c16(case, rng, rep, rows.min(1000)),
                 _ => case_u8(case, rng, rep, rows, fam, col),
             }
         } else {
